@@ -643,6 +643,27 @@ func runC08(p *an.Prog, r *an.Run, tier string) {
 		if !okBound {
 			bad = append(bad, "the collector does not wait for exactly len(candidates) results")
 		}
+		// each of the len(candidates) turns takes one RESULT: every case of the collector's select is a receive from a
+		// channel made in this function for the whitelist goroutines (or the context's Done). A ticker or timer case
+		// added for logging uses up a turn per tick: a host that answers later than the first tick is dropped although
+		// it acknowledged well inside the timeout
+		if sel != nil {
+			for _, st := range sel.States {
+				ch := st.Chan
+				if _, isMake := stripConv(ch).(*ssa.MakeChan); isMake {
+					continue
+				}
+				if c, isCall := ch.(*ssa.Call); isCall && c.Common().IsInvoke() && c.Common().Method.Name() == "Done" {
+					continue
+				}
+				if u, isLoad := ch.(*ssa.UnOp); isLoad && u.Op == token.MUL {
+					if _, isAlloc := u.X.(*ssa.Alloc); isAlloc {
+						continue // a local variable holding one of the result channels
+					}
+				}
+				bad = append(bad, "the collector's select also waits on "+ch.String()+" ("+p.Pos(sel.Pos())+"), which is not a result channel: each time it fires one of the len(candidates) turns is used up without a result having been taken")
+			}
+		}
 		if fan != rh {
 			// the helper hands back what came off the accept channel, and nothing else
 			an.AllInstrs(fan, func(in ssa.Instruction) {
